@@ -308,13 +308,21 @@ DIRECTED = [
     ('cell-that-cannot-be-built-is-visited-first',
      {'A1': 1, 'A2': 2, 'B1': '=A1*2', 'B2': '=A2*3', 'B9': '=Missing!A1*2', 'C9': '=B1+B2'},
      {'B1': 2, 'B2': 7, 'C9': 8}, {'output_addrs': ['Sheet1!C9', 'Sheet1!B9']}, 'B2', ['B9'], ['B1']),
+    # a range which starts on the first cell of an array formula and runs on over plain numbers / blanks / a
+    # neighbouring column: everything is consistent but the one altered cell
+    ('reader-of-a-range-that-starts-on-an-array-formula',
+     {'A1': 1, 'A2': 2, 'A3': 3, 'D4': 7, 'D5': 8, 'E1': 5, 'E2': 6, 'E3': 7, 'G1': '=SUM(D1:D6)', 'G2': '=SUM(D1:E3)',
+      'G3': '=G1+G2', 'B9': '=A1+A2'},
+     {'D1': 2, 'D2': 4, 'D3': 6, 'G1': 27, 'G2': 30, 'G3': 57, 'B9': 4},
+     {'arrays': [['Sheet1', 'D1:D3', '=A1:A3*2']]}, 'B9', [], ['G1', 'G2', 'G3', 'D1', 'D2', 'D3']),
 ]
 
 
 def directed(ctx):
     from pycel import ExcelCompiler
     for tag, cells, stored, kw, altered, unevaluable, quiet_cells in DIRECTED:
-        spec = {'sheets': [['Sheet1', cells]], 'names': {}, 'arrays': [], 'calc': None}
+        kw = dict(kw)
+        spec = {'sheets': [['Sheet1', cells]], 'names': {}, 'arrays': kw.pop('arrays', []), 'calc': None}
         path = os.path.join(ctx.tmpdir, 'c12d.xlsx')
         wb.write_xlsx(spec, path, {f'Sheet1!{c}': v for c, v in stored.items()})
         case = {'kind': 'directed', 'tag': tag}
